@@ -160,6 +160,36 @@ def run(chk):
         late = [r for r in res if r[0] == pb and (r[1] != "ok" or int(r[3]) - int(r[2]) > 700_000_000)]
         if late:
             chk.monitor_fail("Block mode: peer %s's first %d request(s), well within its own quota, waited %s ms while another peer's request was parked on that peer's quota" % (pb, burst, [(int(r[3]) - int(r[2])) // 1000000 if r[1] == "ok" else r[1] for r in late]), dict(case=c, impl=a[:400]))
+    # a large burst, a few requests (not a whole burst), an idle gap of several periods, then a volley larger than the burst:
+    # whatever was left unused before the gap must not add to the replenished burst afterwards
+    vol = []
+    for i in range(4 if quick else 12):
+        rng = chk.rng
+        burst = (8, 12, 9, 16)[(i // 4) % 4] if i >= 4 else 8
+        first = (1, 2, 3, 5)[i % 4] if i < 8 else rng.randrange(1, burst)
+        mode = ("err", "block", "err+same", "block+same")[i % 4]
+        pa = rng.choice([1, 6, 3, 0])
+        extra = 6 if mode.startswith("err") else 4
+        vol.append("ratelayer %s 250 %d %s" % (mode, burst, " ".join(["%d@0" % pa] * first + ["%d@%d" % (pa, 250 * (first + 5))] * (burst + extra))))
+    for c, a in zip(vol, run_impl("layers", vol, shards=len(vol))):
+        chk.evaluations += 1
+        chk.nontriv(c)
+        chk.count("ratelayer-volley-after-idle")
+        if a.startswith(("PANIC", "CRASH", "TIMEOUT", "HANG")) or " | " not in a:
+            chk.monitor_fail("rate limit layer panicked / hung", dict(case=c, impl=a[:300]))
+            continue
+        t = c.split()
+        period, burst, pa_ = int(t[2]), int(t[3]), t[4].split("@")[0]
+        inv = [x.split("@") for x in a.split(" | ")[1].split()]
+        ts = sorted(int(x[1]) for x in inv if x[0] == pa_)
+        worst = None
+        for i_ in range(len(ts)):
+            for j_ in range(i_, len(ts)):
+                if j_ - i_ + 1 > burst + 1 + (ts[j_] - ts[i_] + 5_000_000) // (period * 1_000_000) and worst is None:
+                    worst = (j_ - i_ + 1, ts[j_] - ts[i_])
+        if worst:
+            chk.monitor_fail("peer %s (burst %d, one cell per %d ms) sent %d request(s), stayed idle, then a volley: %d requests reached the service within %d ns, more than burst+1+replenishment"
+                             % (pa_, burst, period, len([x for x in t[4:] if x.endswith("@0")]), worst[0], worst[1]), dict(case=c, impl=a[:600]))
     ri = run_impl("layers", rl, shards=len(rl))
     for c, a in zip(rl, ri):
         chk.evaluations += 1
